@@ -3,6 +3,7 @@
 package main
 
 import (
+	"context"
 	"fmt"
 	"math/rand"
 	"os"
@@ -692,16 +693,32 @@ func (e *scriptEnv) stepCheckpointConcurrent() {
 		e.hookMu.Lock()
 		e.parked[s] = ch
 		e.hookMu.Unlock()
+		// the request's context: a third of the parked requests are abandoned by their caller (time-out, cancelled
+		// call) while they wait in alignment — the event is still behind its sender's barrier
+		rctx, abandon := context.WithCancel(context.Background())
+		defer abandon()
 		if batched {
 			e.logOp("%s: [barrier(%d) and that event travel in one batch]", s, id)
 			e.c.Feat("barrier_inside_batch", 1)
-			go func() { ps.done <- e.node.SendBatch(s, ophar.BarrierEvent(id), wev) }()
+			go func() { ps.done <- e.node.SendBatchCtx(rctx, s, ophar.BarrierEvent(id), wev) }()
 		} else {
-			go func() { ps.done <- e.node.SendBatch(s, wev) }()
+			go func() { ps.done <- e.node.SendBatchCtx(rctx, s, wev) }()
 		}
 		select {
 		case <-ch:
 			e.c.Feat("senders_parked_in_alignment", 1)
+			if e.r.Intn(3) == 0 {
+				e.logOp("%s: [the caller of that request gives up: its context ends while the request waits in alignment]", s)
+				abandon()
+				e.c.Feat("parked_requests_abandoned_by_caller", 1)
+				// an abandoned request must not slip its event in before the checkpoint: give it a moment to try
+				select {
+				case err := <-ps.done:
+					ps.done <- err
+					e.c.Fail("post-barrier-event-not-held", e.wit(), "sender %s delivered an event after its barrier %d; its caller gave up while the request was waiting in alignment and HandleEvent returned (%v) although %d barrier(s) are still missing: the event was accepted before checkpoint %d was taken", s, id, err, len(order)-1-i, id)
+				case <-time.After(2 * time.Millisecond):
+				}
+			}
 		case err := <-ps.done:
 			e.c.Fail("post-barrier-event-not-held", e.wit(), "sender %s delivered an event after its barrier %d and HandleEvent returned (%v) although %d barrier(s) are still missing: the event was accepted before checkpoint %d was taken", s, id, err, len(order)-1-i, id)
 		case <-time.After(ophar.Watchdog):
